@@ -31,6 +31,10 @@ pub enum NodeOp {
     ReplicateLog(Vec<Value>),
     /// follower path: replicate_to_state_machine with the Normal entries of own log [from,to)
     ReplicateSm { from: u64, to: u64 },
+    /// leader path on a node whose Raft core is idle: RaftStorage::apply_entry_to_state_machine with the (Normal) entry
+    /// `index` of the own log - what a freshly elected leader does with its first own entry while committed entries it
+    /// received as a follower are still unapplied
+    LeaderApply { index: u64 },
     Compact,
     CompactSpawn,
     /// must be the last observing op of a phase (probes sequence counters by drawing from them)
@@ -535,6 +539,16 @@ async fn exec(app: &Arc<AppShareData>, op: &NodeOp, spawned: &mut Vec<tokio::tas
                     Err(e) => NodeRes::Err(e.to_string()),
                 }
             }
+            Err(e) => NodeRes::Err(e.to_string()),
+        },
+        NodeOp::LeaderApply { index } => match app.raft_store.get_log_entries(*index, *index + 1).await {
+            Ok(es) => match es.first().map(|e| (&e.payload, e.index)) {
+                Some((EntryPayload::Normal(n), i)) if i == *index => match app.raft_store.apply_entry_to_state_machine(index, &n.data).await {
+                    Ok(_) => NodeRes::Ok,
+                    Err(e) => NodeRes::Err(e.to_string()),
+                },
+                _ => NodeRes::Err(format!("entry {} is not a Normal entry of the own log", index)),
+            },
             Err(e) => NodeRes::Err(e.to_string()),
         },
         NodeOp::Compact => {
